@@ -33,7 +33,8 @@ CHECKS = {
         "try shapes, suppressing with, match with guards, comprehensions, dict methods, 25 builtins, two-typevar generics, a "
         "generic class and a dataclass); ~44k executions, ~440k judged events, 1.2% skipped in quick. The visitor's abstract "
         "machine is not one specification: its components are modelled and bound in C02, C09, C14, C03/C04 and the call specs. "
-        "Event-level deviation classes and 4 domain classes, each self-tested for reachability and non-masking.",
+        "Event-level deviation classes and 4 domain classes, each self-tested for reachability and non-masking."
+        " An indexing slice (every index -3..3 on parameters, starred displays and extend-then-append lists, all argument tuples incl. empty containers) is always run in full.",
         design="2/C01",
         note=TRUSTED + " Runtime values come from instrumented execution under CPython 3.12; values / inferred types outside the "
         "term universe are not judged (counted as skipped); bool arguments are only passed where bool is declared (cross-type "
@@ -93,7 +94,8 @@ CHECKS = {
         "(thorough) cache histories exhaustive over the recursive family, Sound / Refl / union laws / history independence. "
         "Documented leniencies are named predicates; the enum-metaclass protocol hole and six protocol deviations (poisoned "
         "positive cache, five Any / rescue leniencies) are named known deviations, excused only where the model reproduces the "
-        "real verdict.",
+        "real verdict."
+        " Unions of same-type literals (function literals, class literals, two instances of one class, scalars) in every order are offered to Callable types, __call__ / data-member protocols and every expected kind (UnionLeft).",
         design="2/C04",
         note=TRUSTED + " Leniencies excluded from Sound are listed in DESIGN.md (bare generics, fixed<-variadic tuple, NewType<-supertype); class objects (type[K], KnownValue(K)) against protocols and the "
         "permissive __hash__ rule are outside the protocol slice.",
@@ -144,7 +146,8 @@ CHECKS = {
         "is diagnosed iff some argument does not belong to its declared type (for generics: under no admissible type-variable "
         "value), the inferred type contains the modelled result, and the inferred solution fits every argument; bound to the "
         "code by replaying 5.5e3 cases quick (first-built slice in full; defaults slice: all <=1-argument calls plus 1 000 sampled two-argument calls) / all cases thorough + simulation through the real checker and real CPython, "
-        "each observation judged by TLC, drift 0; three named deviation classes (orbound-ignored, classmethod-on-specialised-class-keeps-free-typevar, subscripted-generic-class-call-unchecked); the protocol-cache defect was repaired.",
+        "each observation judged by TLC, drift 0; three named deviation classes (orbound-ignored, classmethod-on-specialised-class-keeps-free-typevar, subscripted-generic-class-call-unchecked); the protocol-cache defect was repaired."
+        " A keyword-names slice (typed **kwargs next to positional-only / *args parameters, keywords reusing every parameter name) checks the landing slot of every argument against CPython.",
         design="2/C06",
         note=TRUSTED + " The result clause is judged on calls whose arguments fit. Candidates for type variables in the oracle: "
         "object, bound, constraints, int/str/bool/float/A/B. Sessions need a fresh Checker; all other calls share one Checker "
@@ -218,7 +221,8 @@ CHECKS = {
         "trace validation of real executions: ~70 (quick) / ~420 (thorough) fresh processes over a pool of 21 programs "
         "targeting the modelled sites (unexpected keywords, or-chains, protocols, literal unions, dict/set displays, "
         "TypedDict, overloads, generics, narrowing loops, try/finally scopes), each also checked twice in one process. "
-        "Four ordering defects were repaired; set displays are a known finding.",
+        "Four ordering defects were repaired; set displays are a known finding."
+        " The corpus slice checks the repository's own 896 pure test snippets in two fresh processes per shard (different seeds, opposite orders, one Checker per settings); every program is checked with a ClassAttributeChecker so that end-of-run reports are part of the rendering; families sharedsig (typeshed generic-protocol builtins, Protocol[T]) and attrchecker were added after seeds C10-3 / C10-4.",
         design="2/C10",
         note=TRUSTED + " Renderings = code, line, column and message text of every diagnostic with module names and addresses normalised.",
     ),
@@ -263,7 +267,8 @@ CHECKS = {
         "configurations), nestings and sequences by TLC simulation, 1.7k layouts, ~13k (quick) value pairs through can_assign / "
         "unite_values / substitute_typevars / str / hash / simplify / runtime API; every diagnostic's position and rendered "
         "context judged against the file. Totality is observed, not derived. Eleven crashes / ill-formed positions found this "
-        "way were repaired; the UTF-8 byte-offset column is an open finding.",
+        "way were repaired; the UTF-8 byte-offset column is an open finding."
+        " Declaration-level class bodies (33 kinds of Enum / dataclass / NamedTuple / TypedDict / Protocol bodies x 26 member values incl. nominally-hashable-but-unhashable ones) are part of the generator.",
         design="2/C12",
         note=TRUSTED + " The grammar is the modelled one, not all of Python; modules that fail to import are outside the domain; the line model is CPython's physical lines; well-formed odd objects "
         "may raise in __eq__ / __hash__ / __bool__ only (a raising __repr__ or a __getattr__ raising other than AttributeError is "
@@ -288,7 +293,8 @@ CHECKS = {
         "code is bound to the model by replay (drift 0) and every real result is judged by TLC. The denotation of a forward "
         "reference is proved and replayed to be independent of evaluation history and of typing's shared ForwardRef objects "
         "(histories <=2, 20k states quick / 387k thorough, 1.7k cases replayed in quick); shapes of definition model checked "
-        "(3.7k / 112k states) and replayed.",
+        "(3.7k / 112k states) and replayed."
+        " Unpack'd *args / **kwargs in three spellings (DefVarargs.tla) and TypedDict / dataclass / NamedTuple field declarations (13 qualifier stacks over Required / NotRequired / ReadOnly / Annotated x typing / typing_extensions x three spellings; DeclFields.tla, 342 cases all replayed) are judged against the declared meaning of PEP 589 / 646 / 655 / 692 / 705 on every route.",
         design="2/C13",
         note=TRUSTED + " RefSame / RefSameSig define 'up to representation'; typing's caches are cleared per case for Annotations / DefHeaders and really shared inside a case for AnnotationContext; return types of "
         "calls compared only when declared; vocabulary = prelude of c13.py; Python 3.12.1.",
@@ -344,7 +350,8 @@ CHECKS = {
         "hold. Real loop bound by trace validation of every iteration (inserted line, position, first diagnostic). Parts B / C: "
         "replacement fixes as post-conditions (parses, proposing diagnostic gone, AST = intended program, loop clean) and as "
         "text operations over fix kind x 24 statement layouts x 9 blocks x 8 lines-before x 12 lines-after x 3 end-of-file "
-        "positions (87k states quick / 200k thorough; 3.7k / 99k files through the real fixer).",
+        "positions (87k states quick / 200k thorough; 3.7k / 99k files through the real fixer)."
+        " Part D (FixShapes.tla): the fix producers' decisions over statement / literal / call shapes (assignment targets x walrus x value purity; 70 named shapes for missing_f, use_fstrings, too_many_positional_args, unused_ignore) with Ref = the applied replacement is the intended change only, judged by executing the function before and after the fix.",
         design="2/C16",
         note=TRUSTED + " Replacement fixes (missing_f, use_fstrings, unused_variable, too_many_positional_args, unused_ignore) are covered by part B (FixReplace.tla / FixReplaceTrace.tla, c16b.py) with post-conditions only: parses, proposing diagnostic gone, AST delta within the allowed set; the decompiler's text fidelity is outside what TLA+ decides (comments inside the rewritten statement are lost by design and not counted). 8 open findings in the line-range / insertion code (proposed/C16-fix-1..3.diff); asynq multi-statement rewrites (missing_asynq, duplicate / unnecessary yield) are not realised.",
     ),
@@ -363,7 +370,8 @@ CHECKS = {
         "flag sets x 3 widths x 4 precisions x 4 length modifiers x 19 conversions; 5 names x 10 accessor chains x 5 conversions "
         "x 11 specs) and 2-item templates over reduced menus x arguments of arity required-1 / 0 / +1 (quick: 25k cases all "
         "replayed; thorough 1e7 states), outside 15 named deviation classes (known_findings.jsonl). The real code is bound by replaying the "
-        "enumerated cases with TLC judging each real report against the real CPython outcome; drift 0.",
+        "enumerated cases with TLC judging each real report against the real CPython outcome; drift 0."
+        " Lexical edge forms of str.format field names (signs, spaces, underscores, non-ASCII digits, Py_ssize_t overflow) are enumerated against CPython's get_integer rule.",
         design="2/C17",
         note=TRUSTED + " CPython 3.12.1 is the oracle (its TLA+ model is re-validated on every observation). Acceptance and result "
         "type only, not rendered text. -coverage is unusable on these specs (OOM); vacuity is controlled by observation "
@@ -383,7 +391,8 @@ CHECKS = {
         "4e6 thorough). The printed cases (deterministic sample where the space exceeds the replay budget; 1.3e5 real "
         "observations quick) are replayed through the real options code with TLC judging every result (CommandLineValueWins, "
         "LayeringFollowsDocs, MalformedRejected); the real command-line instances are compared with the model even when a lower "
-        "layer masks the value.",
+        "layer masks the value."
+        " The Options object is state with a Lookup action: histories of <=3 lookups on one real Options (and one program run over several files) must each follow the documented precedence and leave the stored instances unchanged.",
         design="2/C18",
         note=TRUSTED + " Seven real options stand for six option kinds; Options.display is replaced by a recorder in-process; path lists are "
         "first-statement-wins (PathSequenceOption is not a ConcatenatedOption); files=[] means no file was named; a command line "
